@@ -2,6 +2,7 @@ package lint
 
 import (
 	"fmt"
+	"os"
 	"go/token"
 	"go/types"
 	"sort"
@@ -48,6 +49,10 @@ func (m *Model) ruleLOCKPAIR(r *Results) {
 					leak = true
 					_ = ret
 				}
+			}
+			if _, isW := m.lockWrapper(fn); isW && leak && m.wrapperReturnsRelease(fn) {
+				r.ok(rule, key, pos, "acquire wrapper: returns holding the lock together with its release function (paired at the call sites)")
+				continue
 			}
 			if leak {
 				r.bad(rule, key, pos, "a return is reachable with %s still held (manual Lock without a matching Unlock on every path): later callers on any handle block forever", op.Lock)
@@ -307,8 +312,12 @@ func (m *Model) selfEdgeExcused(e orderEdge) (bool, string) {
 			} else if isZeroConst(cd.X) {
 				other = cd.Y
 			}
-			p, ok := stripConv(other).(*ssa.Parameter)
-			if other == nil || !ok {
+			if other == nil {
+				continue
+			}
+			rv0, _ := m.resolve(other, topFrame(lf))
+			p, ok := stripConv(rv0).(*ssa.Parameter)
+			if !ok {
 				continue
 			}
 			c := newCut()
@@ -329,7 +338,12 @@ func (m *Model) selfEdgeExcused(e orderEdge) (bool, string) {
 			}
 		}
 		if !zeroGuarded {
-			return false, m.declName(lf) + " locks " + e.To.String() + " unconditionally"
+			// the guard may sit in the callers of an unconditional locker (e.g. a withLock helper)
+			guardFn, gp := m.zeroGuardedCaller(lf, e)
+			if guardFn == nil {
+				return false, m.declName(lf) + " locks " + e.To.String() + " unconditionally"
+			}
+			lf, P = guardFn, gp
 		}
 		// callers of lf on the chain: the argument must be the exp field of an event; every event
 		// constructed in the extent of e.Via must leave that field zero
@@ -382,20 +396,21 @@ type guardedField struct {
 	Lock   *types.Var
 	What   string
 	Strict bool // violation (true) or informational (false)
+	Role   string
 }
 
 func (m *Model) guardedTable() []guardedField {
 	a := &m.A
 	var out []guardedField
-	add := func(f, l *types.Var, what string, strict bool) {
+	add := func(f, l *types.Var, what string, strict bool, role string) {
 		if f != nil && l != nil {
-			out = append(out, guardedField{f, l, what, strict})
+			out = append(out, guardedField{f, l, what, strict, role})
 		}
 	}
-	add(a.FeedsField, a.BucketMutex, "feed registry map (shared by all handles)", true)
-	add(a.CollsField, a.BucketMutex, "per-handle collections map", true)
-	add(a.ClosedField, a.BucketMutex, "closed flag", true)
-	add(a.ViewCache, a.CollMutex, "view cache map", true)
+	add(a.FeedsField, a.BucketMutex, "feed registry map (shared by all handles)", true, "feed-registry")
+	add(a.CollsField, a.BucketMutex, "per-handle collections map", true, "collections-map")
+	add(a.ClosedField, a.BucketMutex, "closed flag", true, "closed-flag")
+	add(a.ViewCache, a.CollMutex, "view cache map", true, "view-cache")
 	// registry maps
 	for _, nm := range m.SSA.Pkg.Scope().Names() {
 		tn, ok := m.SSA.Pkg.Scope().Lookup(nm).(*types.TypeName)
@@ -419,7 +434,7 @@ func (m *Model) guardedTable() []guardedField {
 		}
 		if mu != nil && len(maps) >= 2 && tn.Type() != types.Type(a.CollectionType) {
 			for _, f := range maps {
-				add(f, mu, "bucket registry map", true)
+				add(f, mu, "bucket registry map", true, "registry-map")
 			}
 		}
 	}
@@ -514,7 +529,7 @@ func (m *Model) checkGuard(r *Results, rule string, lm *lockModel, fl *fnLocks, 
 			has = true
 		}
 	}
-	key := m.declName(fn) + " / " + g.Field.Name() + " " + kind
+	key := m.declName(fn) + " / " + g.Role + " " + kind
 	if has {
 		r.ok(rule, key, m.instrPos(at), "%s of the %s under %s", kind, g.What, g.Lock.Name())
 		return
@@ -646,7 +661,14 @@ func (m *Model) ruleBACKFILLGAP(r *Results) {
 		var bfCall ssa.CallInstruction
 		var reg ssa.Instruction
 		m.eachCall(fn, func(c ssa.CallInstruction) {
-			if c.Common().StaticCallee() == bfFn {
+			callee := c.Common().StaticCallee()
+			if callee == nil || !m.inPkg(callee) {
+				return
+			}
+			if _, isGo := c.(*ssa.Go); isGo {
+				return
+			}
+			if callee == bfFn || m.reachableLocal(callee)[bfFn] {
 				bfCall = c
 			}
 		})
@@ -671,15 +693,20 @@ func (m *Model) ruleBACKFILLGAP(r *Results) {
 		if reg == nil && bfCall != nil {
 			m.eachCall(fn, func(c ssa.CallInstruction) {
 				callee := c.Common().StaticCallee()
-				if callee == nil || !m.inPkg(callee) || callee == bfFn {
+				if callee == nil || !m.inPkg(callee) || callee == bfFn || c == bfCall {
 					return
 				}
-				for _, b := range callee.Blocks {
-					for _, ins := range b.Instrs {
-						if mu, ok := ins.(*ssa.MapUpdate); ok {
-							if ld, ok := mu.Map.(*ssa.UnOp); ok {
-								if fa, ok := ld.X.(*ssa.FieldAddr); ok && fieldOf(fa) == a.FeedsField {
-									reg = c
+				if _, isGo := c.(*ssa.Go); isGo {
+					return
+				}
+				for g := range m.reachableLocal(callee) {
+					for _, b := range g.Blocks {
+						for _, ins := range b.Instrs {
+							if mu, ok := ins.(*ssa.MapUpdate); ok {
+								if ld, ok := mu.Map.(*ssa.UnOp); ok {
+									if fa, ok := ld.X.(*ssa.FieldAddr); ok && fieldOf(fa) == a.FeedsField {
+										reg = c
+									}
 								}
 							}
 						}
@@ -689,6 +716,35 @@ func (m *Model) ruleBACKFILLGAP(r *Results) {
 		}
 		if bfCall == nil || reg == nil {
 			continue
+		}
+		if rc, ok := reg.(ssa.CallInstruction); ok && rc == bfCall {
+			continue
+		}
+		// the two must be separate steps of THIS function: the backfill call must not itself perform
+		// the registration, nor the registration call the backfill (that would be a caller further up)
+		registers := func(f *ssa.Function) bool {
+			for g := range m.reachableLocal(f) {
+				for _, b := range g.Blocks {
+					for _, ins := range b.Instrs {
+						if mu, ok := ins.(*ssa.MapUpdate); ok {
+							if ld, ok := mu.Map.(*ssa.UnOp); ok {
+								if fa, ok := ld.X.(*ssa.FieldAddr); ok && fieldOf(fa) == a.FeedsField {
+									return true
+								}
+							}
+						}
+					}
+				}
+			}
+			return false
+		}
+		if callee := bfCall.Common().StaticCallee(); callee != nil && registers(callee) {
+			continue
+		}
+		if rc, ok := reg.(ssa.CallInstruction); ok {
+			if callee := rc.Common().StaticCallee(); callee != nil && (callee == bfFn || m.reachableLocal(callee)[bfFn]) {
+				continue
+			}
 		}
 		order := "unordered"
 		switch {
@@ -701,6 +757,28 @@ func (m *Model) ruleBACKFILLGAP(r *Results) {
 			for l := range m.heldAt(in) {
 				if l.Field == a.BucketMutex {
 					return true
+				}
+			}
+			// a call to a helper that performs the registration under the mutex itself
+			if c, ok := in.(ssa.CallInstruction); ok {
+				if callee := c.Common().StaticCallee(); callee != nil {
+					for g := range m.reachableLocal(callee) {
+						for _, b := range g.Blocks {
+							for _, ins := range b.Instrs {
+								if mu, ok := ins.(*ssa.MapUpdate); ok {
+									if ld, ok := mu.Map.(*ssa.UnOp); ok {
+										if fa, ok := ld.X.(*ssa.FieldAddr); ok && fieldOf(fa) == a.FeedsField {
+											for l := range m.heldAt(mu) {
+												if l.Field == a.BucketMutex {
+													return true
+												}
+											}
+										}
+									}
+								}
+							}
+						}
+					}
 				}
 			}
 			return false
@@ -907,7 +985,7 @@ func (m *Model) ruleREGISTRY(r *Results) {
 		}
 		nClose++
 		name := m.declName(fn)
-		// the closed flag: loaded under the mutex; unregister only on the not-closed edge
+		// the closed flag: unregister only on the edge where the previously read flag was false
 		c := newCut()
 		found := false
 		for _, iff := range allIfs(fn) {
@@ -915,21 +993,26 @@ func (m *Model) ruleREGISTRY(r *Results) {
 			if cd.Op != token.ILLEGAL {
 				continue
 			}
-			if _, f, ok := fieldLoad(cd.X); ok && f == a.ClosedField {
+			if m.derivesFromField(cd.X, a.ClosedField.Name(), 0, map[ssa.Value]bool{}) {
 				c.cutEdge(iff.Block(), cd.succWhen(false))
 				found = true
 			}
 		}
 		r.check(found && !entryReach(fn, c)[call.Block().Index], rule, name+" / release once", m.instrPos(call), "the registry reference is released only if this handle was not closed before", "closing a handle releases the registry's reference every time: a second Close of the same handle takes away another handle's reference and shuts the store down under it")
-		// flag set under the lock
+		// flag set under the lock (in Close itself or in a helper it calls)
 		setLocked := false
-		for _, b := range fn.Blocks {
-			for _, ins := range b.Instrs {
-				if st, ok := ins.(*ssa.Store); ok {
-					if fa, ok := st.Addr.(*ssa.FieldAddr); ok && fieldOf(fa) == a.ClosedField {
-						for l := range m.locks().fns[fn].mustAt[st] {
-							if l.Field == a.BucketMutex {
-								setLocked = true
+		for g := range m.reachableLocal(fn) {
+			if g == unreg || m.methodOwner(g) == reg {
+				continue
+			}
+			for _, b := range g.Blocks {
+				for _, ins := range b.Instrs {
+					if st, ok := ins.(*ssa.Store); ok {
+						if fa, ok := st.Addr.(*ssa.FieldAddr); ok && fieldOf(fa) == a.ClosedField {
+							for l := range m.heldAt(st) {
+								if l.Field == a.BucketMutex {
+									setLocked = true
+								}
 							}
 						}
 					}
@@ -976,7 +1059,7 @@ func (m *Model) ruleSHUTDOWN(r *Results) {
 	}
 	name := m.declName(fn)
 	var dbClose, timerStop ssa.CallInstruction
-	var feedRange *ssa.Range
+	var feedRange ssa.Instruction
 	var queueCloses []ssa.CallInstruction
 	m.eachCall(fn, func(c ssa.CallInstruction) {
 		cc := c.Common()
@@ -1003,16 +1086,31 @@ func (m *Model) ruleSHUTDOWN(r *Results) {
 			}
 		}
 	})
-	for _, b := range fn.Blocks {
-		for _, ins := range b.Instrs {
-			if rg, ok := ins.(*ssa.Range); ok {
-				if ld, ok := rg.X.(*ssa.UnOp); ok {
-					if fa, ok := ld.X.(*ssa.FieldAddr); ok && fieldOf(fa) == a.FeedsField {
-						feedRange = rg
+	rangesFeeds := func(f *ssa.Function) ssa.Instruction {
+		for _, b := range f.Blocks {
+			for _, ins := range b.Instrs {
+				if rg, ok := ins.(*ssa.Range); ok {
+					if ld, ok := rg.X.(*ssa.UnOp); ok {
+						if fa, ok := ld.X.(*ssa.FieldAddr); ok && fieldOf(fa) == a.FeedsField {
+							return rg
+						}
 					}
 				}
 			}
 		}
+		return nil
+	}
+	feedRange = rangesFeeds(fn)
+	if feedRange == nil {
+		m.eachCall(fn, func(c ssa.CallInstruction) {
+			if callee := c.Common().StaticCallee(); callee != nil && m.inPkg(callee) {
+				for g := range m.reachableLocal(callee) {
+					if rangesFeeds(g) != nil {
+						feedRange = c
+					}
+				}
+			}
+		})
 	}
 	if dbClose == nil {
 		r.undecided(rule, name, m.pos(fn.Pos()), "no DB close found")
@@ -1060,4 +1158,63 @@ func (m *Model) isLeaf(fn *ssa.Function) bool {
 		}
 	})
 	return leaf
+}
+
+// zeroGuardedCaller: every caller (inside the extent of e.Via) of the unconditional locker lf
+// reaches that call only when one of its own parameters is non-zero. Returns that caller and parameter.
+func (m *Model) zeroGuardedCaller(lf *ssa.Function, e orderEdge) (*ssa.Function, *ssa.Parameter) {
+	var guard *ssa.Function
+	var gp *ssa.Parameter
+	for f := range m.reachHybrid(e.Via, false) {
+		for _, ce := range m.calleesOf(f) {
+			if ce.Callee != lf || ce.IsGo {
+				continue
+			}
+			// f calls lf at ce.Site: the site must be unreachable when some parameter of f is zero
+			okSite := false
+			for _, iff := range allIfs(f) {
+				cd := condOf(iff)
+				eq, ok := cd.equalEdge()
+				if !ok {
+					continue
+				}
+				var other ssa.Value
+				if isZeroConst(cd.Y) {
+					other = cd.X
+				} else if isZeroConst(cd.X) {
+					other = cd.Y
+				}
+				if other == nil {
+					continue
+				}
+				rv, _ := m.resolve(other, topFrame(f))
+				p, isP := stripConv(rv).(*ssa.Parameter)
+				if !isP {
+					continue
+				}
+				c := newCut()
+				for _, s := range iff.Block().Succs {
+					if s != eq {
+						c.cutEdge(iff.Block(), s)
+					}
+				}
+				if !entryReach(f, c)[ce.Site.Block().Index] {
+					okSite = true
+					guard, gp = f, p
+				}
+			}
+			if !okSite && os.Getenv("RL_DEBUG") != "" {
+				fmt.Fprintf(os.Stderr, "DEBUG zeroGuardedCaller: %s calls %s at %s without zero guard\n", m.declName(f), m.declName(lf), m.instrPos(ce.Site))
+			}
+			if !okSite {
+				// f itself may be an unconditional intermediary: recurse one level
+				if g2, p2 := m.zeroGuardedCaller(f, e); g2 != nil && f != lf {
+					guard, gp = g2, p2
+					continue
+				}
+				return nil, nil
+			}
+		}
+	}
+	return guard, gp
 }
